@@ -1281,7 +1281,8 @@ impl Headers {
             *world = Some(HstsWorld { router: Router::new(), default: d, fronts: Default::default() });
             return "ok".into();
         }
-        let Some(wd) = world.as_mut() else { return "bad-op".into() };
+        // without an `hdef` (a shrunk case) the listener simply has no default, as in the driver
+        let wd = world.get_or_insert_with(|| HstsWorld { router: Router::new(), default: None, fronts: Default::default() });
         match w[0] {
             "hadd" => {
                 let id: u64 = w[1].parse().unwrap_or(0);
